@@ -43,14 +43,14 @@ Definition holds (d : list dump_entry) (pr : promise) : bool :=
 Definition overlaps (p : path) (off len : N) (pr : promise) : bool :=
   let '(q, o2, bs) := pr in path_eqb p q && (off <? o2 + N.of_nat (length bs)) && (o2 <? off + len).
 
-Fixpoint walk (i : N) (g : ghost) (ps : list promise) (verf : option N) (l : list istep) : list (N * N) :=
+Fixpoint walk (i : N) (g : ghost) (ps pd : list promise) (ld : list dump_entry) (verf : option N) (l : list istep) : list (N * N) :=
   match l with
   | [] => []
   | x :: r =>
     let o := i_obs x in
     let g' := ghost_update g x in
     (* requests that legitimately supersede earlier promises: anything that may rewrite, truncate, remove or move the file *)
-    let ps1 :=
+    let supersede (ps : list promise) : list promise :=
       match hs_req (i_step x) with
       | RWrite h off cnt _ _ => match g_get g h with Some p => filter (fun pr => negb (overlaps p off cnt pr)) ps | None => ps end
       | RSetattr h sa _ => match s_size sa, g_get g h with Some _, Some p => filter (fun pr => negb (path_eqb p (fst (fst pr)))) ps | _, _ => ps end
@@ -62,6 +62,23 @@ Fixpoint walk (i : N) (g : ghost) (ps : list promise) (verf : option N) (l : lis
           | _, _ => [] end
       | _ => ps
       end in
+    let ps1 := supersede ps in
+    (* acknowledged but not yet stable writes (committed < FILE_SYNC... DATA_SYNC counts as stable data too): they
+       become promises when a later COMMIT covering them is acknowledged (count 0 = to the end of the file) *)
+    let pd1 := supersede pd in
+    let promoted :=
+      match hs_req (i_step x) with
+      | RCommit h off cnt =>
+          if status_ok x then
+            match g_get g h with
+            | Some p => filter (fun pr => let '(q, o2, bs) := pr in
+                                          path_eqb p q && (off <=? o2) && ((cnt =? 0) || (o2 + N.of_nat (length bs) <=? off + cnt))) pd1
+            | None => [] end
+          else []
+      | _ => []
+      end in
+    let pd2 := filter (fun pr => negb (existsb (fun q => path_eqb (fst (fst pr)) (fst (fst q)) && (snd (fst pr) =? snd (fst q))
+                                                         && bytes_eqb (snd pr) (snd q)) promoted)) pd1 in
     (* every surviving promise must hold at every crash point of this step *)
     let broken := existsb (fun d => existsb (fun pr => negb (holds d pr)) ps1) (i_crash x) in
     (* new promise *)
@@ -70,24 +87,39 @@ Fixpoint walk (i : N) (g : ghost) (ps : list promise) (verf : option N) (l : lis
       | RWrite h off cnt _ data =>
           if status_ok x then
             match ob_nums o, g_get g h with
-            | n :: committed :: _, Some p => if (committed =? 2) && (0 <? n) then (p, off, firstn (N.to_nat n) data) :: ps1 else ps1
+            | n :: committed :: _, Some p => if (1 <=? committed) && (0 <? n) then (p, off, firstn (N.to_nat n) data) :: ps1 else ps1
             | _, _ => ps1
             end
           else ps1
-      | _ => ps1
+      | _ => promoted ++ ps1
       end in
+    let pd3 :=
+      match hs_req (i_step x) with
+      | RWrite h off cnt _ data =>
+          if status_ok x then
+            match ob_nums o, g_get g h with
+            | n :: committed :: _, Some p => if (committed =? 0) && (0 <? n) then (p, off, firstn (N.to_nat n) data) :: pd2 else pd2
+            | _, _ => pd2
+            end
+          else pd2
+      | _ => pd2
+      end in
+    (* data covered by the COMMIT just acknowledged must be durable at the time of the reply *)
+    (* (a request without backend calls leaves the durable tree as it was: ld) *)
+    let ld' := match rev (i_crash x) with d :: _ => d | [] => ld end in
+    let uncommitted := existsb (fun pr => negb (holds ld' pr)) promoted in
     (* the new promise must hold in the durable tree at the time of the reply *)
     let unkept := match ps2, rev (i_crash x) with
                   | pr :: _, d :: _ => (negb (N.of_nat (length ps2) =? N.of_nat (length ps1))) && negb (holds d pr)
                   | _, _ => false end in
     let verf_bad := match verf, i_verf x with Some v, Some w => negb (v =? w) | _, _ => false end in
     let verf' := match verf with Some _ => verf | None => i_verf x end in
-    (if broken || unkept || verf_bad then [(i, code_specfail)] else []) ++ walk (i + 1) g' ps2 verf' r
+    (if broken || unkept || uncommitted || verf_bad then [(i, code_specfail)] else []) ++ walk (i + 1) g' ps2 pd3 ld' verf' r
   end.
 Definition first_verf (l : list istep) : option N :=
   match filter (fun x => match i_verf x with Some _ => true | None => false end) l with x :: _ => i_verf x | [] => None end.
 Definition specfail (c : case) : list (N * N) :=
-  first_only (walk 0 [] [] None (c_steps (base c))) ++
+  first_only (walk 0 [] [] [] (c_init (base c)) None (c_steps (base c))) ++
   match first_verf (c_steps (base c)), verf_second_instance c with
   | Some v, Some w => if v =? w then [(0, code_specfail)] else []
   | _, _ => []
